@@ -35,10 +35,17 @@ TraceSegments ==
 TraceJoin ==
   /\ Trace[l].ev = "Join"
   /\ Trace[l].res = JoinText(Trace[l].c, Trace[l].segs)
-  /\ Segments(Trace[l].res) = Segments(Trace[l].c) \o Trace[l].segs
+  /\ Segments(Trace[l].res) = Segments(Trace[l].c) \o NonEmpty(Trace[l].segs)
   /\ UNCHANGED m
 
-TraceNext == l <= Len(Trace) /\ l' = l + 1 /\ (TraceParse \/ TraceCovers \/ TraceSegments \/ TraceJoin)
+\* New(segs...) is Join from the top command
+TraceNew ==
+  /\ Trace[l].ev = "New"
+  /\ Trace[l].res = JoinText(TopCmd, Trace[l].segs)
+  /\ Valid(Trace[l].res)
+  /\ UNCHANGED m
+
+TraceNext == l <= Len(Trace) /\ l' = l + 1 /\ (TraceParse \/ TraceCovers \/ TraceSegments \/ TraceJoin \/ TraceNew)
 TraceSpec == TraceInit /\ [][TraceNext]_tvars
 
 \* model self-checks on recorded inputs (MC invariants restricted to what is defined here)
